@@ -350,6 +350,12 @@ class Interp:
         if isinstance(cur, list) and isinstance(s.op, ast.Add):
             cur.extend(val)  # in-place list +=
             return
+        for x, y, rev in ((cur, val, False), (val, cur, True)):
+            if hasattr(x, "pyvc_binop"):
+                r = x.pyvc_binop(self, type(s.op).__name__, y, rev)
+                if r is not NotImplemented:
+                    self.assign(s.target, r, env)
+                    return
         self.assign(s.target, self.binop(op, cur, val, s), env)
 
     def st_FunctionDef(self, s, env):
